@@ -297,6 +297,8 @@ pub fn traits_const() -> Verdict {
         ("FloatCore::infinity", <TF as FC>::infinity(), TF::INFINITY),
         ("Float::neg_infinity", <TF as F>::neg_infinity(), TF::NEG_INFINITY),
         ("FloatCore::neg_infinity", <TF as FC>::neg_infinity(), TF::NEG_INFINITY),
+        ("Float::neg_zero", <TF as F>::neg_zero(), TF::from(-0.0)),
+        ("FloatCore::neg_zero", <TF as FC>::neg_zero(), TF::from(-0.0)),
         ("Float::nan", <TF as F>::nan(), TF::NAN),
         ("FloatCore::nan", <TF as FC>::nan(), TF::NAN),
         ("E", <TF as K>::E(), c::E),
